@@ -148,7 +148,13 @@ pub struct ReqObs {
 }
 
 /// Performs the action on the request; returns the observation of the request.
-pub fn handle(mut rq: Request, act: &Action, peer_expect: &str) -> ReqObs {
+pub fn handle(rq: Request, act: &Action, peer_expect: &str) -> ReqObs {
+    handle_with(rq, act, peer_expect, None)
+}
+
+/// `partial`: receives the observation as it stands just before the finishing action, for the case
+/// that the finishing call never returns.
+pub fn handle_with(mut rq: Request, act: &Action, peer_expect: &str, partial: Option<Arc<Mutex<Option<String>>>>) -> ReqObs {
     let m = rq.method().as_str().as_bytes().to_vec();
     let u = rq.url().as_bytes().to_vec();
     let v = format!("{}.{}", rq.http_version().0, rq.http_version().1);
@@ -188,6 +194,26 @@ pub fn handle(mut rq: Request, act: &Action, peer_expect: &str) -> ReqObs {
                 }
             }
         }
+    }
+    let render = |got: &Vec<u8>, end: &str| {
+        format!(
+            "[m={},u={},v={},h={},bl={},rd={},e={}{}]",
+            hex(&m),
+            hex(&u),
+            v,
+            if hs.is_empty() {
+                "-".to_string()
+            } else {
+                hs.iter().map(|(n, v)| format!("{}:{}", hex(n), hex(v))).collect::<Vec<_>>().join("+")
+            },
+            bl.map(|x| x.to_string()).unwrap_or("-".into()),
+            hex(got),
+            end,
+            if addr_ok { "" } else { ",addr=WRONG" }
+        )
+    };
+    if let Some(p) = &partial {
+        *p.lock().unwrap() = Some(render(&got, end));
     }
     let f = act.finish.as_str();
     let (k, rest) = f.split_at(1);
@@ -272,23 +298,7 @@ pub fn handle(mut rq: Request, act: &Action, peer_expect: &str) -> ReqObs {
         }
         _ => panic!("finish {}", f),
     }
-    ReqObs {
-        text: format!(
-            "[m={},u={},v={},h={},bl={},rd={},e={}{}]",
-            hex(&m),
-            hex(&u),
-            v,
-            if hs.is_empty() {
-                "-".to_string()
-            } else {
-                hs.iter().map(|(n, v)| format!("{}:{}", hex(n), hex(v))).collect::<Vec<_>>().join("+")
-            },
-            bl.map(|x| x.to_string()).unwrap_or("-".into()),
-            hex(&got),
-            end,
-            if addr_ok { "" } else { ",addr=WRONG" }
-        ),
-    }
+    ReqObs { text: render(&got, end) }
 }
 
 /// Replaces every `Date: <valid current IMF-fixdate>` header line in a byte stream.
@@ -302,7 +312,7 @@ pub fn canon_dates_anywhere(w: &[u8]) -> Vec<u8> {
             let v = &w[i + pat.len()..i + pat.len() + 29];
             if &w[i + pat.len() + 29..i + pat.len() + 31] == b"\r\n" {
                 if let Some(t) = parse_imf_fixdate(v) {
-                    if (t - now).abs() <= 10 {
+                    if (t - now).abs() <= 2 {
                         out.extend_from_slice(pat);
                         out.extend_from_slice(CANON_DATE);
                         i += pat.len() + 29;
@@ -454,16 +464,47 @@ pub fn run_case(servers: &mut Servers, f: &[&str]) -> String {
     let mut reached: Option<Instant> = None;
     let mut end = "hang";
     let mut watchdog_fired = false;
+    let mut blocked_handlers: Vec<std::thread::JoinHandle<()>> = Vec::new();
     loop {
         let r = servers.server(kind).recv_timeout(Duration::from_millis(5));
         if let Ok(Some(rq)) = r {
             let act = if idx < script.len() { &script[idx] } else { script.last().unwrap() };
             idx += 1;
-            let r = std::panic::catch_unwind(std::panic::AssertUnwindSafe(|| handle(rq, act, &peer).text));
-            match r {
-                Ok(t) => reqs.push(t),
-                Err(_) => reqs.push("[PANIC-IN-HANDLER]".to_string()),
+            // the handler runs in its own thread: a finishing call that does not return (e.g. the drop of a
+            // request whose announced body the client withholds) must not stop the observation
+            let slot: Arc<Mutex<Option<String>>> = Arc::new(Mutex::new(None));
+            let (tx, rx) = std::sync::mpsc::channel::<Result<String, ()>>();
+            let (act2, peer2, slot2) = (act.clone(), peer.clone(), slot.clone());
+            let hth = std::thread::spawn(move || {
+                let r = std::panic::catch_unwind(std::panic::AssertUnwindSafe(|| handle_with(rq, &act2, &peer2, Some(slot2)).text));
+                let _ = tx.send(r.map_err(|_| ()));
+            });
+            let mut gave_up = false;
+            loop {
+                match rx.recv_timeout(Duration::from_millis(5)) {
+                    Ok(Ok(t)) => {
+                        reqs.push(t);
+                        break;
+                    }
+                    Ok(Err(())) => {
+                        reqs.push("[PANIC-IN-HANDLER]".to_string());
+                        break;
+                    }
+                    Err(_) => {
+                        if start.elapsed() > limit {
+                            gave_up = true;
+                            break;
+                        }
+                    }
+                }
             }
+            if gave_up {
+                reqs.push(slot.lock().unwrap().clone().unwrap_or("[HANDLER-BLOCKED]".to_string()));
+                blocked_handlers.push(hth);
+                end = if eof { "hang" } else { "open" };
+                break;
+            }
+            let _ = hth.join();
             continue;
         }
         if eof_seen.load(Ordering::SeqCst) {
@@ -496,6 +537,16 @@ pub fn run_case(servers: &mut Servers, f: &[&str]) -> String {
     let _ = wdt.join();
     let _ = wt.join();
     let _ = rt.join();
+    for h in blocked_handlers {
+        // closing the client's socket releases whatever the handler was blocked in
+        let t = Instant::now();
+        while !h.is_finished() && t.elapsed() < Duration::from_millis(2000) {
+            std::thread::sleep(Duration::from_millis(2));
+        }
+        if h.is_finished() {
+            let _ = h.join();
+        }
+    }
     // give the connection thread a moment to notice, then count stray deliveries
     let mut stray = 0;
     if end != "closed" {
